@@ -217,6 +217,18 @@ impl Oracle for C02 {
         if let Some((symptom, detail)) = dangling_probe(t.post) {
             report(symptom, detail);
         }
+        // "touches nothing else": a removal must leave the reverse indices of everything that survives exact (a row of an
+        // unrelated annotation dropped here only shows as a missed cascade one removal later)
+        if t.new_state {
+            match catch(|| check_reverse(t.post)) {
+                Ok(fails) => {
+                    for f in fails {
+                        report(format!("index-of-survivors|{}|{}", f.accessor, f.symptom), f.detail);
+                    }
+                }
+                Err(m) => report(format!("index-of-survivors|observation|panic:{}", msg_class(&m)), String::new()),
+            }
+        }
         healthy
     }
 }
@@ -228,17 +240,34 @@ pub struct Plan {
     pub depth: usize,
 }
 
+/// r0, s0, r1 and two annotations on r1: the second resource already has text selections (handles 0 and 1) when the
+/// exploration starts, so that handles of different resources can coincide or continue each other
+pub fn two_resource_init() -> Vec<Op> {
+    let mut v = quick_init();
+    v.push(Op::AddRes { id: R1.0.into(), text: R1.1.into() });
+    for (i, (b, e)) in [(0usize, 2usize), (1, 4)].iter().enumerate() {
+        v.push(Op::Annotate {
+            id: Some(format!("x{}", i)),
+            target: Target::simple(TSimple::Text { res: R1.0.into(), off: Off::simple(*b, *e) }),
+            data: vec![DataT::New { set: "s0".into(), key: "k0".into(), val: Val::S("v".into()), id: None }],
+        });
+    }
+    v
+}
+
 pub fn plans(tier: Tier) -> Vec<Plan> {
     match tier {
         Tier::Quick => vec![
             Plan { name: "reduced alphabet, r0+s0 pre-created", al: Alphabet::quick(), init: quick_init(), depth: 4 },
             // second resource, second dataset, data in two sets, rich targets: shallower
             Plan { name: "full alphabet, r0+s0 pre-created", al: Alphabet::thorough(), init: quick_init(), depth: 3 },
+            Plan { name: "full alphabet, two resources, r1 with two selections", al: Alphabet::thorough(), init: two_resource_init(), depth: 2 },
         ],
         Tier::Thorough => vec![
             Plan { name: "full alphabet, r0+s0 pre-created", al: Alphabet::thorough(), init: quick_init(), depth: 4 },
             Plan { name: "reduced alphabet, r0+s0 pre-created", al: Alphabet::quick(), init: quick_init(), depth: 5 },
             Plan { name: "full alphabet from the empty store", al: Alphabet::thorough(), init: vec![], depth: 4 },
+            Plan { name: "full alphabet, two resources, r1 with two selections", al: Alphabet::thorough(), init: two_resource_init(), depth: 3 },
         ],
     }
 }
